@@ -12,7 +12,8 @@ Lean terms over `BitVec 32` (go/cmd/extract/sketch.go; Go's uint32 operators one
 included), regenerated on every run; the theorems below are about those terms, for every hash, every
 counter width and every filter size.  What is assumed rather than translated is listed in
 `Expected/Sketch.lean` and compared with the regenerated facts by `source_as_vetted`.
-Not covered: `nextPowerOfTwo` (its result enters as `size` / `numBits` with the stated bounds).
+`nextPowerOfTwo` is translated statement by statement (a let-chain) and bounded for every argument
+(`nextPowerOfTwo_bounded`), which closes the two `…_init` theorems without hypotheses.
 -/
 namespace AsherahVerif.Props.C15b
 open AsherahVerif.Generated.Sketch
@@ -125,6 +126,111 @@ theorem bloom_shift_lt (i : BitVec 32) : (set_shift i).toNat < 64 ∧ (get_shift
   have d : ∀ x : BitVec 32, (x % (64 : BitVec 32)).toNat = x.toNat % 64 := by
     intro x; rw [BitVec.toNat_umod]; rfl
   rw [d]; omega
+
+/-! ### `nextPowerOfTwo` -/
+
+/-- the top `t` bits of a word are set -/
+private def TopSet (t : Nat) (n : BitVec 32) : Prop := ∀ k, 32 - t ≤ k → k < 32 → n.getLsbD k = true
+
+private theorem smear_top (n : BitVec 32) (t : Nat) (h : TopSet t n) :
+    TopSet (2 * t) (n ||| (n >>> t)) := by
+  intro k h1 h2
+  rw [BitVec.getLsbD_or, BitVec.getLsbD_ushiftRight]
+  by_cases hk : 32 - t ≤ k
+  · rw [h k hk h2]; rfl
+  · rw [h (t + k) (by omega) (by omega)]; simp
+
+private theorem smear_msb_false (n : BitVec 32) (t : Nat) (ht : 0 < t) (h : n.getLsbD 31 = false) :
+    (n ||| (n >>> t)).getLsbD 31 = false := by
+  rw [BitVec.getLsbD_or, BitVec.getLsbD_ushiftRight, h]
+  have : n.getLsbD (t + 31) = false := BitVec.getLsbD_of_ge n (t + 31) (by omega)
+  rw [this]; rfl
+
+private theorem all_set (n : BitVec 32) (h : TopSet 32 n) : n = BitVec.allOnes 32 := by
+  apply BitVec.eq_of_getLsbD_eq
+  intro k hk
+  rw [h k (by omega) hk, BitVec.getLsbD_allOnes]; simp [hk]
+
+private theorem lt_of_msb_false (n : BitVec 32) (h : n.getLsbD 31 = false) : n.toNat < 2 ^ 31 := by
+  have : n.msb = false := by rw [BitVec.msb_eq_getLsbD_last]; exact h
+  exact BitVec.toNat_lt_of_msb_false this
+
+/-- **`nextPowerOfTwo`, translated statement by statement** (`n := i-1; n |= n>>1; …; n++`): for EVERY
+argument the result is 0 (wrap-around for arguments above 2³¹ and for 0; both callers replace it by 1)
+or at most 2³¹ — if the top bit of `i-1` is set the five smearing steps set all 32 bits and the
+increment wraps, otherwise the top bit stays clear. -/
+theorem nextPowerOfTwo_bounded (i : BitVec 32) :
+    nextPowerOfTwo i = 0 ∨ (nextPowerOfTwo i).toNat ≤ 2 ^ 31 := by
+  unfold nextPowerOfTwo
+  by_cases hm : (i - 1).getLsbD 31 = true
+  · left
+    have h1 : TopSet 1 (i - 1) := by
+      intro k h1 h2
+      have : k = 31 := by omega
+      rw [this]; exact hm
+    have h2 := smear_top _ 1 h1
+    have h4 := smear_top _ 2 h2
+    have h8 := smear_top _ 4 h4
+    have h16 := smear_top _ 8 h8
+    have h32 := smear_top _ 16 h16
+    have := all_set _ h32
+    simp only [] at this ⊢
+    rw [this]; decide
+  · right
+    have h0 : (i - 1).getLsbD 31 = false := by simpa using hm
+    have a1 := smear_msb_false _ 1 (by decide) h0
+    have a2 := smear_msb_false _ 2 (by decide) a1
+    have a4 := smear_msb_false _ 4 (by decide) a2
+    have a8 := smear_msb_false _ 8 (by decide) a4
+    have a16 := smear_msb_false _ 16 (by decide) a8
+    have := lt_of_msb_false _ a16
+    simp only [] at this ⊢
+    rw [BitVec.toNat_add]
+    have e : (1 : BitVec 32).toNat = 1 := by decide
+    rw [e]
+    omega
+
+/-- the doorkeeper size `Init` computes (`numBits := nextPowerOfTwo(x); if numBits == 0 { numBits = 1 }`)
+meets the hypotheses of `bloom_index_in_bounds` for every `x`. -/
+theorem bloom_numBits_ok (x : BitVec 32) :
+    let numBits := if nextPowerOfTwo x = 0 then (1 : BitVec 32) else nextPowerOfTwo x
+    1 ≤ numBits.toNat ∧ numBits.toNat ≤ 2 ^ 31 := by
+  intro numBits
+  by_cases h : nextPowerOfTwo x = 0
+  · have : numBits = 1 := if_pos h
+    rw [this]; decide
+  · have e : numBits = nextPowerOfTwo x := if_neg h
+    rw [e]
+    constructor
+    · have : (nextPowerOfTwo x).toNat ≠ 0 := fun hz => h (BitVec.eq_of_toNat_eq (by simpa using hz))
+      omega
+    · cases nextPowerOfTwo_bounded x with
+      | inl h0 => exact absurd h0 h
+      | inr hb => exact hb
+
+/-- **doorkeeper, end to end**: for every expected-insertions / false-positive setting (whatever `x`
+the float arithmetic of `Init` produces), every hash and every probe number, `Put` and `Contains`
+index inside `f.bits` — no hypothesis left. -/
+theorem bloom_index_in_bounds_init (x h1 h2 i : BitVec 32) :
+    let numBits := if nextPowerOfTwo x = 0 then (1 : BitVec 32) else nextPowerOfTwo x
+    (set_idx (put_bit h1 h2 i (numBits - 1))).toNat < (numBits + 63).toNat / 64 ∧
+    (get_idx (contains_bit h1 h2 i (numBits - 1))).toNat < (numBits + 63).toNat / 64 := by
+  intro numBits
+  have := bloom_numBits_ok x
+  exact bloom_index_in_bounds h1 h2 i numBits this.1 this.2
+
+/-- **sketch, end to end**: for every requested width, the row index of every hash is inside
+`c.counters` (`size := nextPowerOfTwo(width) >> 2; if size < 1 { size = 1 }`). -/
+theorem sketch_index_in_bounds_init (w h : BitVec 32) :
+    let size := if (nextPowerOfTwo w >>> (2 : Nat)).toNat < 1 then (1 : BitVec 32) else nextPowerOfTwo w >>> (2 : Nat)
+    (position_idx h (size - 1)).toNat < size.toNat := by
+  intro size
+  apply sketch_index_in_bounds
+  by_cases c : (nextPowerOfTwo w >>> (2 : Nat)).toNat < 1
+  · have : size = 1 := if_pos c
+    rw [this]; decide
+  · have : size = nextPowerOfTwo w >>> (2 : Nat) := if_neg c
+    rw [this]; omega
 
 /-- the hypothesis `numBits ≤ 2³¹` of `bloom_index_in_bounds` is needed: the uint32 addition
 `numBits+63` wraps for a (hypothetical) larger size and the slice would be too short. -/
